@@ -52,6 +52,50 @@ type Case struct {
 	Height    string `json:"height,omitempty"` // decimal, non-negative
 	TxHash    string `json:"tx_hash,omitempty"`
 	Msg       string `json:"msg,omitempty"` // sha: hex of the message
+	Steps     []Step `json:"steps,omitempty"` // seq: a history on ONE long-lived handler
+}
+
+// Tx is one transaction of a block of a history.
+type Tx struct {
+	Hash string `json:"hash"`
+	Outs []Out  `json:"outs"`
+}
+
+// Step of a history: "block" = ProcessDeposits(Height) over Txs on the long-lived handler,
+// "decode" = DecodeDepositEvent(Txs[0], <value of the shared resources map for Resources[Res]>, fee address).
+type Step struct {
+	Kind   string `json:"kind"`
+	Height string `json:"height,omitempty"`
+	Txs    []Tx   `json:"txs"`
+	Res    int    `json:"res,omitempty"`
+}
+
+type SnapRes struct {
+	Key  string `json:"key"` // hex of the map key
+	ID   string `json:"id"`  // hex of the value's ResourceID
+	Addr string `json:"addr"`
+	Fee  string `json:"fee"` // decimal
+}
+
+type TxObs struct {
+	Msg       bool   `json:"msg,omitempty"`
+	Dest      uint8  `json:"dest,omitempty"`
+	Nonce     uint64 `json:"nonce,omitempty"`
+	Rid       string `json:"rid,omitempty"`
+	Amount    string `json:"amount,omitempty"`
+	Recipient string `json:"recipient,omitempty"`
+	Nonce2    uint64 `json:"nonce2,omitempty"`
+}
+
+type StepObs struct {
+	Txs     []TxObs   `json:"txs,omitempty"`
+	Stray   bool      `json:"stray,omitempty"`
+	Dec     string    `json:"dec,omitempty"`
+	Amount  string    `json:"amount,omitempty"`
+	Data    string    `json:"data,omitempty"`
+	RidOK   bool      `json:"rid_ok,omitempty"`
+	Snap    []SnapRes `json:"snap"`
+	FeeAddr string    `json:"fee_addr"`
 }
 
 type Obs struct {
@@ -71,6 +115,8 @@ type Obs struct {
 	Nonce2 uint64 `json:"nonce2,omitempty"`
 	// sha
 	Digest string `json:"digest,omitempty"`
+	// seq
+	Steps []StepObs `json:"steps,omitempty"`
 }
 
 // ---- JSON text of a transaction, as bitcoind prints it -------------------------------------------
@@ -86,10 +132,12 @@ func literal(o Out) string {
 
 func jstr(s string) string { b, _ := json.Marshal(s); return string(b) }
 
-func txJSON(c Case) string {
+func txJSON(c Case) string { return txJSONOf(c.TxHash, c.Outs, 1700000000) }
+
+func txJSONOf(hash string, outs []Out, blocktime int64) string {
 	var sb strings.Builder
-	sb.WriteString(`{"hex":"","txid":` + jstr(c.TxHash) + `,"hash":` + jstr(c.TxHash) + `,"version":2,"locktime":0,"vin":[],"vout":[`)
-	for i, o := range c.Outs {
+	sb.WriteString(`{"hex":"","txid":` + jstr(hash) + `,"hash":` + jstr(hash) + `,"version":2,"locktime":0,"vin":[],"vout":[`)
+	for i, o := range outs {
 		if i > 0 {
 			sb.WriteString(",")
 		}
@@ -99,7 +147,7 @@ func txJSON(c Case) string {
 		}
 		sb.WriteString("}}")
 	}
-	sb.WriteString(`],"blocktime":1700000000}`)
+	sb.WriteString(fmt.Sprintf(`],"blocktime":%d}`, blocktime))
 	return sb.String()
 }
 
@@ -165,6 +213,8 @@ func run(c Case) (o Obs) {
 		m, _ := hex.DecodeString(c.Msg)
 		d := sha256.Sum256(m)
 		return Obs{Digest: hex.EncodeToString(d[:])}
+	case "seq":
+		return runSeq(c)
 	case "nonce":
 		h1 := handler(c, 1, &conn{})
 		c2 := c
@@ -252,6 +302,161 @@ func run(c Case) (o Obs) {
 		return o
 	}
 	panic("unknown mode " + c.Mode)
+}
+
+// ---- histories on one long-lived handler ----------------------------------------------------------
+
+func bigHeight(s string) *big.Int {
+	h, ok := new(big.Int).SetString(s, 10)
+	if !ok || h.Sign() < 0 {
+		panic("bad height " + s)
+	}
+	return h
+}
+
+const seqBlocktime = int64(1700000000)
+
+// runSeq builds the resources map and the handler ONCE (as app.go does) and plays the steps on
+// them.  After every step the map the handler was built over is read back.
+func runSeq(c Case) (o Obs) {
+	rs := map[[32]byte]btcconfig.Resource{}
+	for _, r := range c.Resources {
+		if _, dup := rs[rid(r.ID)]; dup {
+			panic("duplicate resource id in a seq case")
+		}
+		rs[rid(r.ID)] = resource(r)
+	}
+	feeAddr := mustAddr(c.FeeAddr)
+	cn := &conn{}
+	h := listener.NewFungibleTransferEventHandler(zerolog.Nop().With(), 1, listener.NewBtcDepositHandler(),
+		make(chan []*message.Message, 1), cn, rs, feeAddr)
+	other := handler(Case{Resources: []Res{{Addr: pool[3], Fee: 7, ID: 9}}, FeeAddr: pool[4]}, 77, &conn{})
+	snap := func() (out []SnapRes) {
+		var keys [][32]byte
+		for k := range rs {
+			keys = append(keys, k)
+		}
+		sort.Slice(keys, func(i, j int) bool { return hex.EncodeToString(keys[i][:]) < hex.EncodeToString(keys[j][:]) })
+		for _, k := range keys {
+			v := rs[k]
+			sr := SnapRes{Key: hex.EncodeToString(k[:]), ID: hex.EncodeToString(v.ResourceID[:]), Fee: "-1"}
+			if v.Address != nil {
+				sr.Addr = v.Address.String()
+			}
+			if v.FeeAmount != nil {
+				sr.Fee = v.FeeAmount.String()
+			}
+			out = append(out, sr)
+		}
+		return out
+	}
+	for _, st := range c.Steps {
+		var so StepObs
+		switch st.Kind {
+		case "block":
+			var sb strings.Builder
+			sb.WriteString(`{"hash":"00","height":1,"tx":[`)
+			for i, t := range st.Txs {
+				if i > 0 {
+					sb.WriteString(",")
+				}
+				sb.WriteString(txJSONOf(t.Hash, t.Outs, seqBlocktime+int64(i)))
+			}
+			sb.WriteString("]}")
+			var blk btcjson.GetBlockVerboseTxResult
+			if err := json.Unmarshal([]byte(sb.String()), &blk); err != nil {
+				panic("block json: " + err.Error())
+			}
+			cn.block = &blk
+			ht := bigHeight(st.Height)
+			out, err := h.ProcessDeposits(ht)
+			if err != nil {
+				panic("ProcessDeposits: " + err.Error())
+			}
+			so.Txs = make([]TxObs, len(st.Txs))
+			for i, t := range st.Txs {
+				so.Txs[i].Nonce2, _ = other.CalculateNonce(ht, t.Hash)
+			}
+			var dests []int
+			for d := range out {
+				dests = append(dests, int(d))
+			}
+			sort.Ints(dests)
+			for _, d := range dests {
+				for _, m := range out[uint8(d)] {
+					td, ok := m.Data.(transfer.TransferMessageData)
+					if !ok || m.Source != 1 || td.Type != transfer.FungibleTransfer || len(td.Payload) != 2 || m.Type != transfer.TransferMessageType {
+						so.Stray = true
+						continue
+					}
+					// whose message is it: the transaction's block time is handed on as the
+					// message's timestamp; failing that, the (reference) nonce of the transaction
+					idx := -1
+					if k := m.Timestamp.Unix() - seqBlocktime; k >= 0 && k < int64(len(st.Txs)) {
+						idx = int(k)
+					} else {
+						for i := range st.Txs {
+							if so.Txs[i].Nonce2 == td.DepositNonce {
+								if idx >= 0 {
+									idx = -2
+									break
+								}
+								idx = i
+							}
+						}
+					}
+					if idx < 0 || so.Txs[idx].Msg {
+						so.Stray = true
+						continue
+					}
+					a, ok1 := td.Payload[0].([]byte)
+					rc, ok2 := td.Payload[1].([]byte)
+					if !ok1 || !ok2 {
+						so.Stray = true
+						continue
+					}
+					x := &so.Txs[idx]
+					x.Msg, x.Dest, x.Nonce = true, m.Destination, td.DepositNonce
+					x.Rid = hex.EncodeToString(td.ResourceId[:])
+					x.Amount = new(big.Int).SetBytes(a).String()
+					x.Recipient = hex.EncodeToString(rc)
+				}
+			}
+		case "decode":
+			var tx btcjson.TxRawResult
+			if err := json.Unmarshal([]byte(txJSONOf(st.Txs[0].Hash, st.Txs[0].Outs, seqBlocktime)), &tx); err != nil {
+				panic("tx json: " + err.Error())
+			}
+			want := rid(c.Resources[st.Res].ID)
+			res := rs[want] // the VALUE held by the shared map, as ProcessDeposits reads it
+			func() {
+				defer func() {
+					if r := recover(); r != nil {
+						so.Dec, so.RidOK = "panic", true
+					}
+				}()
+				d, isDep, err := listener.DecodeDepositEvent(tx, res, feeAddr)
+				zero := d.Amount == nil && d.Data == "" && d.SenderAddress == "" && d.ResourceID == [32]byte{}
+				switch {
+				case err != nil:
+					so.Dec, so.RidOK = "err", isDep && zero
+				case !isDep:
+					so.Dec, so.RidOK = "not", zero
+				default:
+					so.Dec = "deposit"
+					so.Amount = d.Amount.String()
+					so.Data = hex.EncodeToString([]byte(d.Data))
+					so.RidOK = d.ResourceID == want && d.SenderAddress == ""
+				}
+			}()
+		default:
+			panic("unknown step kind " + st.Kind)
+		}
+		so.Snap = snap()
+		so.FeeAddr = feeAddr.String()
+		o.Steps = append(o.Steps, so)
+	}
+	return o
 }
 
 // ---- generation ----------------------------------------------------------------------------------
@@ -386,6 +591,172 @@ func randHeight(r *vgen.Rng) string {
 	}
 }
 
+// ---- histories (round 4) ---------------------------------------------------------------------------
+
+var seqFees = []int64{1, 2, 58, 546, 10000, 10000, 100000}
+
+// splitFee writes `total` satoshi to the fee address in one or two outputs
+func splitFee(r *vgen.Rng, feeAddr string, total int64) []Out {
+	if total <= 0 {
+		return nil
+	}
+	ty := func() string { return vgen.Pick(r, []string{taproot, taproot, "witness_v0_keyhash"}) }
+	if total >= 2 && r.Chance(1, 4) {
+		a := 1 + int64(r.U64()%uint64(total-1))
+		return []Out{{Type: ty(), Addr: feeAddr, Sat: a}, {Type: ty(), Addr: feeAddr, Sat: total - a, Trim: r.Bool()}}
+	}
+	return []Out{{Type: ty(), Addr: feeAddr, Sat: total, Trim: r.Chance(1, 4)}}
+}
+
+var seqBadPayloads = []string{"", "_", "abc", "0xe9f23A8289764280697a03aC06795eA92a170e42_256", "0xe9f23A8289764280697a03aC06795eA92a170e42_", "x_1a"}
+
+// genSeq: one configuration (1..3 resources in ascending id order, one fee address) and a history
+// of blocks / single decodes over it: underpaying (fee sum 1..F-1, often F-1 or 1), "rest" (pays
+// what an earlier underpayer left open: still below F), exact, overpaying, fee-less, fee-only,
+// unrelated, non-Taproot, malformed, two-resource and repeated transactions.
+func genSeq(r *vgen.Rng) Case {
+	c := Case{Mode: "seq", Class: "seq"}
+	k := r.Range(1, 3)
+	perm := []int{0, 1, 2}
+	r.Shuffle(3, func(i, j int) { perm[i], perm[j] = perm[j], perm[i] })
+	id := 0
+	for i := 0; i < k; i++ {
+		id += 1 + r.Intn(80)
+		fee := vgen.Pick(r, seqFees)
+		switch r.Intn(8) {
+		case 0:
+			fee = 0
+		case 1:
+			fee = 1 + randSat(r)%1000000
+		}
+		c.Resources = append(c.Resources, Res{Addr: pool[perm[i]], Fee: fee, ID: byte(id)})
+	}
+	c.FeeAddr = pool[3]
+	if r.Chance(1, 4) {
+		c.FeeAddr = pool[4]
+	}
+	under := make([]int64, k) // what the last underpaying transaction of resource i paid
+	var past []Tx
+	mkTx := func() (Tx, int) {
+		ri := r.Intn(k)
+		if len(past) > 0 && r.Chance(1, 8) {
+			return vgen.Pick(r, past), ri
+		}
+		res := c.Resources[ri]
+		F := res.Fee
+		bridgeAmt := 1 + randSat(r)%1000000000
+		bridge := Out{Type: taproot, Addr: res.Addr, Sat: bridgeAmt, Trim: r.Chance(1, 4)}
+		var outs []Out
+		kind := r.Intn(12)
+		for i := range under { // an underpayer is often followed by one paying what it left open
+			if under[i] > 0 && r.Chance(1, 2) {
+				ri, res, F, kind = i, c.Resources[i], c.Resources[i].Fee, 3
+				bridge.Addr = res.Addr
+				break
+			}
+		}
+		if (kind <= 3 || kind == 10 || kind == 11) && F < 2 {
+			kind = 6
+		}
+		if kind == 3 && under[ri] == 0 {
+			kind = 0
+		}
+		switch kind {
+		case 0, 1, 2, 10, 11: // underpaying
+			u := vgen.Pick(r, []int64{F - 1, F - 1, 1, F / 2, 1 + int64(r.U64()%uint64(F-1))})
+			if u < 1 {
+				u = 1
+			}
+			under[ri] = u
+			outs = append([]Out{bridge}, splitFee(r, c.FeeAddr, u)...)
+			if kind == 10 { // ... with an undecodable OP_RETURN script
+				outs = append(outs, Out{Type: nulld, Hex: vgen.Pick(r, []string{"6a", "zz", "6a01zz", ""})})
+			}
+			if kind == 11 && k >= 2 { // ... paying a second resource as well
+				outs = append(outs, Out{Type: taproot, Addr: c.Resources[(ri+1)%k].Addr, Sat: randSat(r) % 100000})
+			}
+		case 3: // pays what the underpayer left open (or a little more), still less than F
+			rest := F - under[ri]
+			if rest < 1 {
+				rest = 1
+			}
+			if F-1 > rest && r.Chance(1, 3) {
+				rest += int64(r.U64() % uint64(F-rest))
+			}
+			outs = append([]Out{bridge}, splitFee(r, c.FeeAddr, rest)...)
+			under[ri] = 0
+		case 4: // exact
+			outs = append([]Out{bridge}, splitFee(r, c.FeeAddr, F)...)
+		case 5: // overpaying
+			outs = append([]Out{bridge}, splitFee(r, c.FeeAddr, F+1+randSat(r)%100000)...)
+		case 6: // no fee output
+			outs = []Out{bridge}
+		case 7: // fee only
+			outs = splitFee(r, c.FeeAddr, F+int64(r.Range(0, 2)))
+		case 8: // unrelated
+			outs = []Out{{Type: taproot, Addr: pool[5], Sat: randSat(r)}}
+		default: // non-Taproot output to the bridge address, exact fee
+			bridge.Type = vgen.Pick(r, []string{"witness_v0_keyhash", "pubkeyhash"})
+			outs = append([]Out{bridge}, splitFee(r, c.FeeAddr, F)...)
+			if r.Bool() {
+				outs = append(outs, Out{Type: taproot, Addr: res.Addr, Sat: randSat(r) % 5000000})
+			}
+		}
+		switch r.Intn(8) {
+		case 0:
+		case 1:
+			outs = append(outs, Out{Type: nulld, Hex: opret(vgen.Pick(r, seqBadPayloads))})
+		default:
+			outs = append(outs, Out{Type: nulld, Hex: opret(goodPayload(r))})
+		}
+		r.Shuffle(len(outs), func(i, j int) { outs[i], outs[j] = outs[j], outs[i] })
+		t := Tx{Hash: randHash(r), Outs: outs}
+		past = append(past, t)
+		return t, ri
+	}
+	ht := int64(r.Intn(2000000))
+	n := r.Range(3, 6)
+	for i := 0; i < n; i++ {
+		if r.Chance(1, 5) {
+			t, ri := mkTx()
+			if r.Chance(1, 4) {
+				ri = r.Intn(k)
+			}
+			c.Steps = append(c.Steps, Step{Kind: "decode", Txs: []Tx{t}, Res: ri})
+			continue
+		}
+		st := Step{Kind: "block", Height: fmt.Sprint(ht)}
+		if !r.Chance(1, 6) {
+			ht += int64(r.Range(1, 3))
+		}
+		for j := r.Range(1, 4); j > 0; j-- {
+			t, _ := mkTx()
+			st.Txs = append(st.Txs, t)
+		}
+		c.Steps = append(c.Steps, st)
+	}
+	return c
+}
+
+// spread puts the (costlier) cases of `extra` evenly between those of `base`, so that they end up
+// in different shards.
+func spread(base, extra []Case) []Case {
+	if len(extra) == 0 {
+		return base
+	}
+	out := make([]Case, 0, len(base)+len(extra))
+	every := len(base)/len(extra) + 1
+	j := 0
+	for i, c := range base {
+		if i%every == 0 && j < len(extra) {
+			out = append(out, extra[j])
+			j++
+		}
+		out = append(out, c)
+	}
+	return append(out, extra[j:]...)
+}
+
 func gen(r *vgen.Rng, tier string) []Case {
 	var out []Case
 	thorough := tier == "thorough"
@@ -515,7 +886,12 @@ func gen(r *vgen.Rng, tier string) []Case {
 			out = append(out, Case{Mode: "sha", Class: "sha", Msg: hex.EncodeToString(r.Bytes(n))})
 		}
 	}
-	return out
+	// --- histories on one long-lived handler -----------------------------------------------------------
+	var seqs []Case
+	for i := 0; i < 60*mul; i++ {
+		seqs = append(seqs, genSeq(r))
+	}
+	return spread(out, seqs)
 }
 
 // ---- Coq printing ----------------------------------------------------------------------------------
@@ -557,8 +933,58 @@ func coqRes(r Res) string {
 }
 func hexStr(s string) string { return "(unhex \"" + s + "\"%string)" }
 
+func coqDec(dec, amount, data string) string {
+	switch dec {
+	case "not":
+		return "NotDeposit"
+	case "err":
+		return "DecErr"
+	case "panic":
+		return "DecPanic"
+	}
+	return "(IsDeposit " + amount + "%Z " + hexStr(data) + ")"
+}
+
+func coqZStr(s string) string {
+	if strings.HasPrefix(s, "-") {
+		return "(" + s + ")%Z"
+	}
+	return s + "%Z"
+}
+
+func coqSeq(c Case, o Obs) string {
+	if len(o.Steps) != len(c.Steps) {
+		panic("seq: steps and observations differ in number")
+	}
+	var steps []string
+	for i, st := range c.Steps {
+		so := o.Steps[i]
+		snap := vgen.ListOf(so.Snap, func(x SnapRes) string {
+			return "(" + ridHex(x.Key) + ", Build_resource " + coqAddr(x.Addr) + " " + coqZStr(x.Fee) + " " + ridHex(x.ID) + ")"
+		})
+		switch st.Kind {
+		case "block":
+			var txs []string
+			for j, t := range st.Txs {
+				x := so.Txs[j]
+				p := "NoMsg"
+				if x.Msg {
+					p = "(Msg " + vgen.N(uint64(x.Dest)) + " " + vgen.N(x.Nonce) + " " + ridHex(x.Rid) + " " + x.Amount + "%Z " + hexStr(x.Recipient) + ")"
+				}
+				txs = append(txs, "(Build_otx "+vgen.Str(t.Hash)+" "+vgen.ListOf(t.Outs, coqOut)+" "+p+" "+vgen.N(x.Nonce2)+")")
+			}
+			steps = append(steps, "OBlock "+st.Height+"%N "+vgen.List(txs)+" "+vgen.Bool(so.Stray)+" "+snap+" "+coqAddr(so.FeeAddr))
+		default:
+			steps = append(steps, "ODec "+vgen.ListOf(st.Txs[0].Outs, coqOut)+" "+vgen.Nat(st.Res)+" "+coqDec(so.Dec, so.Amount, so.Data)+" "+snap+" "+coqAddr(so.FeeAddr))
+		}
+	}
+	return "Seq " + vgen.ListOf(c.Resources, coqRes) + " " + coqAddr(c.FeeAddr) + " " + vgen.List(steps)
+}
+
 func coq(c Case, o Obs) string {
 	switch c.Mode {
+	case "seq":
+		return coqSeq(c, o)
 	case "sha":
 		return "Sha \"" + c.Msg + "\"%string \"" + o.Digest + "\"%string"
 	case "nonce":
@@ -612,6 +1038,19 @@ func main() {
 					}
 				}
 				return false
+			case "seq":
+				for _, st := range c.Steps {
+					for _, t := range st.Txs {
+						for _, x := range t.Outs {
+							for _, r := range c.Resources {
+								if x.Addr == r.Addr {
+									return true
+								}
+							}
+						}
+					}
+				}
+				return false
 			case "process":
 				for _, x := range c.Outs {
 					for _, r := range c.Resources {
@@ -624,7 +1063,7 @@ func main() {
 			}
 			return true
 		},
-		Rule: "amount: one Taproot bridge output whose JSON literal is s/1e8 for every satoshi value below 2000 on which float truncation is off, powers of ten x {1,2,3,5,7,9} and +-1, 2^k and +-1, the supply bound, random 8-decimal amounts up to 21e14 (fixed and trimmed literals); tx: random output multisets (several bridge outputs, non-Taproot bridge outputs, fee outputs of any type, 0..n OP_RETURNs) with the fee threshold at fee sum -1/0/+1; malformed: undecodable or short OP_RETURN scripts; process: real ProcessDeposits+BtcDepositHandler with one or two resources and well/ill-formed payloads; nonce: two handler instances; sha: lengths around the 55/64/119/128-byte padding boundaries. distinct = distinct input JSON; non-trivial = the transaction has an output to a configured bridge or fee address (all nonce/sha cases count)",
+		Rule: "amount: one Taproot bridge output whose JSON literal is s/1e8 for every satoshi value below 2000 on which float truncation is off, powers of ten x {1,2,3,5,7,9} and +-1, 2^k and +-1, the supply bound, random 8-decimal amounts up to 21e14 (fixed and trimmed literals); tx: random output multisets (several bridge outputs, non-Taproot bridge outputs, fee outputs of any type, 0..n OP_RETURNs) with the fee threshold at fee sum -1/0/+1; malformed: undecodable or short OP_RETURN scripts; process: real ProcessDeposits+BtcDepositHandler with one or two resources and well/ill-formed payloads; nonce: two handler instances; seq: histories of 3..6 steps (blocks of 1..4 transactions through ProcessDeposits, single DecodeDepositEvent calls on the shared map's values) on ONE handler over 1..3 resources - underpaying / paying-the-rest / exact / overpaying / fee-less / fee-only / unrelated / non-Taproot / malformed / two-resource / repeated transactions, configuration read back after every step; sha: lengths around the 55/64/119/128-byte padding boundaries. distinct = distinct input JSON; non-trivial = the transaction has an output to a configured bridge or fee address (all nonce/sha cases count)",
 		ShardSize: 250,
 	})
 }
